@@ -78,9 +78,9 @@ type Op struct {
 	TTI   TimeSpec `json:"tti,omitempty"`
 	TTL   TimeSpec `json:"ttl,omitempty"`
 	NoTTL bool     `json:"no_ttl,omitempty"`
-	Lower int      `json:"lower,omitempty"` // lower threshold in percent
-	Total int      `json:"total,omitempty"` // injected disk size in bytes
-	Extra int      `json:"extra,omitempty"` // injected used bytes beyond the store's files
+	Lower int      `json:"lower,omitempty"`  // lower threshold in percent
+	Total int      `json:"total,omitempty"`  // injected disk size in bytes
+	Extra int      `json:"extra,omitempty"`  // injected used bytes beyond the store's files
 	AtLow bool     `json:"at_low,omitempty"` // aggr-ttl: the injected disk size puts the usage exactly on the lower threshold
 }
 
@@ -711,8 +711,8 @@ func (w *world) pass(i int, op Op, realUtil int) (msg string, classes []string, 
 	}
 	var attempts []attempt
 	lop := loggingOp{w.op(), &attempts}
-	exact := false  // the pass must delete exactly the expired unprotected files
-	subset := false // the pass may delete only expired unprotected files
+	exact := false   // the pass must delete exactly the expired unprotected files
+	subset := false  // the pass may delete only expired unprotected files
 	nothing := false // the pass must not delete at all (disk already at or below the lower threshold)
 	policy := false
 	when := fmt.Sprintf("op %d pass mode=%s tti=%ds ttl=%ds lower=%d cap=%d files=%d now=%d", i, op.Mode, tti, ttl, op.Lower, w.cap, existing, now)
